@@ -75,6 +75,9 @@ pub fn run(a: &Args) {
             plan.scen.lines.retain(|l| !l.starts_with("appmem")); plan.scen.lines.push("appmem 0 256 3840".into()); plan.napp = 1;
             out.count("shape.application_region_touching_the_crash_window");
         }
+        // another fixed shape: the crash instruction pointer lies in the crash thread's own captured stack (a smashed return address):
+        // the window around it and the stack are two objects of the image, each with its own bytes
+        if case == 4 { plan.crash = 1; plan.blame_idx = None; plan.blame_late = false; plan.skip = 0; plan.limit = None; plan.crash_ip = Some(crate::tl::CRASH_IP_SP_PLUS_400); out.count("shape.crash_ip_inside_the_crash_stack"); }
         // names that are not ASCII: thread names and caller-supplied mapping names go through the string writer
         let fancy = ["tête", "", "ñandú-7", "日本語スレ", "😀😀", "a é", "ü", " "];   // the empty and the all-blank name are readable names too
         for (i, t) in plan.scen.threads.iter_mut().enumerate() { if rng.chance(1, 2) { t.name = Some(fancy[i % fancy.len()].as_bytes().to_vec()); } }
